@@ -12,7 +12,7 @@ import os
 
 from rtc import taglib as T
 from rtc import defects
-from rtc.gen import make_rgfa, gaf_record, write_lines, canonical_ranges
+from rtc.gen import make_rgfa, gaf_record, write_lines, canonical_ranges, colon_contigs
 
 
 def unchanged_problem(before, after):
@@ -118,6 +118,11 @@ def evaluate(ctx, section, case, gkey, d):
 
 # ---- generation ---------------------------------------------------------------------------------------------
 def make_graph(rng):
+    g = _make_graph(rng)
+    return colon_contigs(g) if rng.random() < 0.2 else g  # contig names containing ':' (F18)
+
+
+def _make_graph(rng):
     return make_rgfa(rng, n_ref=rng.randint(2, 5), max_len=3, n_bubbles=rng.randint(0, 3),
                      hap_mode=rng.choice(["adjacent", "separated", "mixed"]), inversion=rng.random() < 0.5,
                      self_link=rng.random() < 0.25, n_chrom=rng.choice([1, 1, 2]))
